@@ -118,6 +118,14 @@ class Reader:
             case _:
                 return v * 2
 
+    def skip(self, upto: int | None = None) -> int:
+        """translated twice: for `upto is None` and for an int"""
+        if upto is None:
+            return self.take()
+        if upto > 2:
+            return self.take() + self.take()
+        return upto
+
     def total(self) -> int:
         return self.__total
 
@@ -232,6 +240,11 @@ class Walker:
     @classmethod
     def two(cls, reader: Reader) -> int:
         return reader.take() * 1000 + reader.take()
+
+    @classmethod
+    def hop(cls, reader: Reader, k: int) -> int:
+        """a bound member with two specialisations: the call's arguments (a literal None / an int) pick one"""
+        return reader.skip(None) * 100 + reader.skip(k)
 
     @classmethod
     def several(cls, reader: Reader, n: int) -> int:
